@@ -197,7 +197,8 @@ def _std_fields(c, which, n):
                       for i, t in enumerate(times('tp', k))]
   k = n if which == 'time_signatures' else 0
   fields['time_signatures'] = [
-      dict(time=t, numerator=c.int('ts%d_n' % i, 1, 12), denominator=4)
+      dict(time=t, numerator=c.int('ts%d_n' % i, 1, 12),
+           denominator=c.choice('ts%d_d' % i, [4, 8]))
       for i, t in enumerate(times('ts', k))]
   k = n if which == 'key_signatures' else 0
   fields['key_signatures'] = [dict(time=t, key=c.int('ks%d_k' % i, 0, 11))
